@@ -168,7 +168,9 @@ pub fn any_stream(rng: &mut Rng, m: &Model, n: usize, max: usize) -> (Vec<u8>, &
             .min(max.max(8));
             // pad a valid unit with a long string argument up to the target length
             let head: &[u8] = if m.spelled.iter().any(|sp| sp.path == ["STR"]) { b"STR \"" } else { b"ECHO? \"" };
-            let mut msg = head.to_vec();
+            // (sometimes with white space in front, which counts towards the buffer as well)
+            let mut msg = if rng.chance(1, 3) { vec![b' '; rng.range(1, 3)] } else { vec![] };
+            msg.extend_from_slice(head);
             // (sometimes with newlines inside the payload, so that a terminator-looking
             // byte sits in the part that overflows the buffer)
             let alphabet: &[u8] = if rng.chance(1, 3) { b"abcdefgh;,: \n\n" } else { b"abcdefgh;,: " };
